@@ -2,7 +2,7 @@ from checks.common import *
 import os, re, json, hashlib, subprocess
 
 SPEC = {
-    "translators": ["gen_prec", "gen_emit"],
+    "translators": ["gen_prec", "gen_emit", "gen_fold"],
     "bins": ["c02"],
     "model_targets": ["Cond/Check.vo"],
     "proof_targets": ["Cond/SemProofs.vo", "Cond/RuleSetProofs.vo", "Cond/PrecProofs.vo", "Cond/QuirksProofs.vo", "Cond/MachineProofs.vo", "Cond/RunsProofs.vo", "Cond/EmitProofs.vo"],
@@ -17,7 +17,8 @@ SPEC = {
         "boundary of the exact code comparison: strings (literals, string externals, string operators and comparisons, string-typed `with` / loop variables) are outside `tyof` - the emitter names string literals by their id in the literal pool of the whole compilation (one more hook) and typing them needs a third type in Cond/Emit.v, which about 80 case analyses of EmitProofs.v enumerate; conditions with strings are still covered by the IR comparison and by the verdicts",
         "one guard lives outside the model: harness/src/bin/c02.rs expectation_probe asserts in Rust the verdicts of `for k, v in <map>` loops over the fixed maps of the test_proto2 module, placed after a `with` that leaves undefined flags in the slots the loop variables reuse (modules and maps are not part of Cond/Syntax.v; a mismatch stops the harness with the source printed)",
     ],
-    "trusted_base": ["harness/src/wasm_read.rs: decoder of the WebAssembly binary written by Compiler::emit_wasm_file (unknown opcode = error); harness/src/bin/c02.rs rule_blocks / wasm_coq: finds every rule's block through the rule_match(<rule id>) call that follows it, resolves call targets and globals through the import section, keeps only the offset of a memarg and the arity of a block type",
+    "trusted_base": ["Gen/FoldFacts.v: regenerated from lib/src/compiler/ir/mod.rs (the Rust operation each folding builder uses; any other shape is a TranslateError); Quirks.prefold is built from it",
+                     "harness/src/wasm_read.rs: decoder of the WebAssembly binary written by Compiler::emit_wasm_file (unknown opcode = error); harness/src/bin/c02.rs rule_blocks / wasm_coq: finds every rule's block through the rule_match(<rule id>) call that follows it, resolves call targets and globals through the import section, keeps only the offset of a memarg and the arity of a block type",
                      "hook lib/src/verif_c02.rs (Rules::verif_c02_pattern_ids): the PatternId of every declared pattern, which the emitted code uses instead of the position in the rule",
                      "coq/Cond/Emit.v pct_code: the f64 instructions of a percentage quantifier are carried as raw opcodes (IRaw) - compared with the emitted code, never executed by the model",
                      "coq/Cond/Wasm.v op_bin / op_un / lower: WebAssembly opcode numbers, and the two expansions (field lookup, matching-rules bitmap byte) where Cond/Emit.v is more abstract than the emitted code",
@@ -120,7 +121,7 @@ def run_k(run, tier, seed, drv):
     for f in stats.get("findings", []):
         fp = f.get("fingerprint", "C02:probe")
         info["violations"].append({"fingerprint": fp, "tag": hashlib.sha1(fp.encode()).hexdigest()[:10],
-                                   "kind": "`N of (<boolean>, ..)` lists the same items in another order and the implementation gives another verdict (an undefined item ends the statement when it is reached; coq/Props/C02.v of_tuple_order_refuted shows the same on the model)",
+                                   "kind": "a pair of conditions that must have the same verdict (stated in the case) and do not",
                                    "case": f})
     info["k_disagreements"] = len(failing)
     info["s_violations"] = len(failing)
